@@ -39,6 +39,17 @@ type SecureScenario struct {
 	Prev     string `json:"prev"`
 	SwapSeed bool   `json:"swapseed"`
 	Conc     bool   `json:"conc"`
+	Hret     string `json:"hret"`
+}
+
+// secHret = 1: the CALL handlers report success with a status object of code 0 instead of nil.
+var secHret int32
+
+func secOK() *erpc.Status {
+	if atomic.LoadInt32(&secHret) == 1 {
+		return erpc.NewStatus(erpc.CodeOK, "success", nil)
+	}
+	return nil
 }
 
 // secMute suppresses the handlers' recording (exchanges that only prepare the session, or the concurrent batch).
@@ -68,7 +79,7 @@ func (c *SJ) Call(arg *Arg) (*Res, *erpc.Status) {
 	if atomic.LoadInt32(&secEnforce) == 1 {
 		secure.EnforceSecure(c.Output())
 	}
-	return &Res{Tag: F(arg.Tag), Pad: arg.Pad}, nil
+	return &Res{Tag: F(arg.Tag), Pad: arg.Pad}, secOK()
 }
 
 type SJP struct{ erpc.PushCtx }
@@ -94,7 +105,7 @@ func (c *SP) Call(arg *pb.Payload) (*pb.Payload, *erpc.Status) {
 	if atomic.LoadInt32(&secEnforce) == 1 {
 		secure.EnforceSecure(c.Output())
 	}
-	return &pb.Payload{ServiceMethod: F(arg.ServiceMethod), Body: arg.Body}, nil
+	return &pb.Payload{ServiceMethod: F(arg.ServiceMethod), Body: arg.Body}, secOK()
 }
 
 type SPP struct{ erpc.PushCtx }
@@ -159,7 +170,7 @@ func rsSafe(k int) string {
 }
 
 func runSecure(rec *Rec, sc *SecureScenario, n int, rnd *rand.Rand) {
-	rec.SetTrace(sc.ID, map[string]interface{}{"mode": "secure", "kind": sc.Kind, "marker": sc.Marker, "accept": sc.Accept, "enforce": sc.Enforce,
+	rec.SetTrace(sc.ID, map[string]interface{}{"mode": "secure", "kind": sc.Kind, "marker": sc.Marker, "accept": sc.Accept, "enforce": sc.Enforce, "hret": sc.Hret,
 		"keys": sc.Keys, "keylen": sc.KeyLen, "codec": sc.Codec, "body": sc.Body, "reqenc": sc.ReqEnc, "invoked": sc.Invoked, "replyenc": sc.ReplyEn, "status": sc.Status, "resend": sc.Resend, "prev": sc.Prev, "swapseed": sc.SwapSeed, "conc": sc.Conc})
 	key := func() string {
 		b := make([]byte, sc.KeyLen)
@@ -172,6 +183,11 @@ func runSecure(rec *Rec, sc *SecureScenario, n int, rnd *rand.Rand) {
 	k2 := k1
 	if sc.Keys == "different" {
 		k2 = key()
+	}
+	if sc.Hret == "okstatus" {
+		atomic.StoreInt32(&secHret, 1)
+	} else {
+		atomic.StoreInt32(&secHret, 0)
 	}
 	if sc.Enforce {
 		atomic.StoreInt32(&secEnforce, 1)
